@@ -1199,21 +1199,27 @@ macro_rules! square {
         }
     };
     ($size:expr) => {
-        Scad {
-            op: ScadOp::Square {
-                size: Pt2::new($size, $size),
-                center: false,
-            },
-            children: Vec::new(),
+        {
+            let size = $size;
+            Scad {
+                op: ScadOp::Square {
+                    size: Pt2::new(size, size),
+                    center: false,
+                },
+                children: Vec::new(),
+            }
         }
     };
     ($size:expr, $center:expr) => {
-        Scad {
-            op: ScadOp::Square {
-                size: Pt2::new($size, $size),
-                center: $center,
-            },
-            children: Vec::new(),
+        {
+            let size = $size;
+            Scad {
+                op: ScadOp::Square {
+                    size: Pt2::new(size, size),
+                    center: $center,
+                },
+                children: Vec::new(),
+            }
         }
     };
 }
@@ -1333,20 +1339,23 @@ macro_rules! polygon {
 #[macro_export]
 macro_rules! text {
     (text_params=$params:expr) => {
-        Scad {
-            op: ScadOp::Text {
-                text: $params.text,
-                size: $params.size,
-                font: $params.font,
-                halign: $params.halign,
-                valign: $params.valign,
-                spacing: $params.spacing,
-                direction: $params.direction,
-                language: $params.language,
-                script: $params.script,
-                fn_: $params.fn_,
-            },
-            children: Vec::new(),
+        {
+            let params = $params;
+            Scad {
+                op: ScadOp::Text {
+                    text: params.text,
+                    size: params.size,
+                    font: params.font,
+                    halign: params.halign,
+                    valign: params.valign,
+                    spacing: params.spacing,
+                    direction: params.direction,
+                    language: params.language,
+                    script: params.script,
+                    fn_: params.fn_,
+                },
+                children: Vec::new(),
+            }
         }
     };
     ($text:expr, $size:expr, $font:expr, $halign:expr, $valign:expr, $spacing:expr, $direction:expr, $language:expr, $script:expr, $fn:expr) => {
@@ -1831,21 +1840,27 @@ macro_rules! cube {
         }
     };
     ($size:expr, $center:expr) => {
-        Scad {
-            op: ScadOp::Cube {
-                size: Pt3::new($size, $size, $size),
-                center: $center,
-            },
-            children: Vec::new(),
+        {
+            let size = $size;
+            Scad {
+                op: ScadOp::Cube {
+                    size: Pt3::new(size, size, size),
+                    center: $center,
+                },
+                children: Vec::new(),
+            }
         }
     };
     ($size:expr) => {
-        Scad {
-            op: ScadOp::Cube {
-                size: Pt3::new($size, $size, $size),
-                center: false,
-            },
-            children: Vec::new(),
+        {
+            let size = $size;
+            Scad {
+                op: ScadOp::Cube {
+                    size: Pt3::new(size, size, size),
+                    center: false,
+                },
+                children: Vec::new(),
+            }
         }
     };
 }
@@ -2025,17 +2040,20 @@ macro_rules! cylinder {
         }
     };
     (h=$height:expr, d=$diameter:expr) => {
-        Scad {
-            op: ScadOp::Cylinder {
-                height: $height,
-                radius1: $diameter / 2.0,
-                radius2: $diameter / 2.0,
-                center: false,
-                fa: None,
-                fs: None,
-                fn_: None,
-            },
-            children: Vec::new(),
+        {
+            let diameter = $diameter;
+            Scad {
+                op: ScadOp::Cylinder {
+                    height: $height,
+                    radius1: diameter / 2.0,
+                    radius2: diameter / 2.0,
+                    center: false,
+                    fa: None,
+                    fs: None,
+                    fn_: None,
+                },
+                children: Vec::new(),
+            }
         }
     };
     (h=$height:expr, r1=$radius1:expr, r2=$radius2:expr, center=$center:expr, fa=$fa:expr, fs=$fs:expr) => {
@@ -2123,17 +2141,20 @@ macro_rules! cylinder {
         }
     };
     (h=$height:expr, r=$radius:expr) => {
-        Scad {
-            op: ScadOp::Cylinder {
-                height: $height,
-                radius1: $radius,
-                radius2: $radius,
-                center: false,
-                fa: None,
-                fs: None,
-                fn_: None,
-            },
-            children: Vec::new(),
+        {
+            let radius = $radius;
+            Scad {
+                op: ScadOp::Cylinder {
+                    height: $height,
+                    radius1: radius,
+                    radius2: radius,
+                    center: false,
+                    fa: None,
+                    fs: None,
+                    fn_: None,
+                },
+                children: Vec::new(),
+            }
         }
     };
     ($height:expr, d1=$diameter1:expr, d2=$diameter2:expr, center=$center:expr, fa=$fa:expr, fs=$fs:expr) => {
@@ -2221,17 +2242,20 @@ macro_rules! cylinder {
         }
     };
     ($height:expr, d=$diameter:expr) => {
-        Scad {
-            op: ScadOp::Cylinder {
-                height: $height,
-                radius1: $diameter / 2.0,
-                radius2: $diameter / 2.0,
-                center: false,
-                fa: None,
-                fs: None,
-                fn_: None,
-            },
-            children: Vec::new(),
+        {
+            let diameter = $diameter;
+            Scad {
+                op: ScadOp::Cylinder {
+                    height: $height,
+                    radius1: diameter / 2.0,
+                    radius2: diameter / 2.0,
+                    center: false,
+                    fa: None,
+                    fs: None,
+                    fn_: None,
+                },
+                children: Vec::new(),
+            }
         }
     };
     ($height:expr, $radius1:expr, $radius2:expr, $center:expr, fa=$fa:expr, fs=$fs:expr) => {
@@ -2305,17 +2329,20 @@ macro_rules! cylinder {
         }
     };
     ($height:expr, $radius:expr, fn=$fn:expr) => {
-        Scad {
-            op: ScadOp::Cylinder {
-                height: $height,
-                radius1: $radius,
-                radius2: $radius,
-                center: false,
-                fa: None,
-                fs: None,
-                fn_: Some($fn),
-            },
-            children: Vec::new(),
+        {
+            let radius = $radius;
+            Scad {
+                op: ScadOp::Cylinder {
+                    height: $height,
+                    radius1: radius,
+                    radius2: radius,
+                    center: false,
+                    fa: None,
+                    fs: None,
+                    fn_: Some($fn),
+                },
+                children: Vec::new(),
+            }
         }
     };
     ($height:expr, $radius1:expr, $radius2:expr) => {
@@ -2333,17 +2360,20 @@ macro_rules! cylinder {
         }
     };
     ($height:expr, $radius:expr) => {
-        Scad {
-            op: ScadOp::Cylinder {
-                height: $height,
-                radius1: $radius,
-                radius2: $radius,
-                center: false,
-                fa: None,
-                fs: None,
-                fn_: None,
-            },
-            children: Vec::new(),
+        {
+            let radius = $radius;
+            Scad {
+                op: ScadOp::Cylinder {
+                    height: $height,
+                    radius1: radius,
+                    radius2: radius,
+                    center: false,
+                    fa: None,
+                    fs: None,
+                    fn_: None,
+                },
+                children: Vec::new(),
+            }
         }
     };
 }
@@ -2465,31 +2495,37 @@ macro_rules! linear_extrude {
         }
     };
     (height=$height:expr, center=$center:expr, convexity=$convexity:expr, twist=$twist:expr, scale=$scale:expr, fn=$fn:expr, $($child:expr);+;) => {
-        Scad {
-            op: ScadOp::LinearExtrude {
-                height: $height,
-                center: $center,
-                convexity: $convexity,
-                twist: $twist,
-                scale: Pt2::new($scale, $scale),
-                slices: None,
-                fn_: Some($fn),
-            },
-            children: vec![$($child,)+],
+        {
+            let scale = $scale;
+            Scad {
+                op: ScadOp::LinearExtrude {
+                    height: $height,
+                    center: $center,
+                    convexity: $convexity,
+                    twist: $twist,
+                    scale: Pt2::new(scale, scale),
+                    slices: None,
+                    fn_: Some($fn),
+                },
+                children: vec![$($child,)+],
+            }
         }
     };
     (height=$height:expr, center=$center:expr, convexity=$convexity:expr, twist=$twist:expr, scale=$scale:expr, slices=$slices:expr, $($child:expr);+;) => {
-        Scad {
-            op: ScadOp::LinearExtrude {
-                height: $height,
-                center: $center,
-                convexity: $convexity,
-                twist: $twist,
-                scale: Pt2::new($scale, $scale),
-                slices: Some($slices),
-                fn_: None,
-            },
-            children: vec![$($child,)+],
+        {
+            let scale = $scale;
+            Scad {
+                op: ScadOp::LinearExtrude {
+                    height: $height,
+                    center: $center,
+                    convexity: $convexity,
+                    twist: $twist,
+                    scale: Pt2::new(scale, scale),
+                    slices: Some($slices),
+                    fn_: None,
+                },
+                children: vec![$($child,)+],
+            }
         }
     };
     ($height:expr, $($child:expr);+;) => {
